@@ -30,18 +30,19 @@ BASE = [('S', {'A1': 10, 'B1': '=A1*2', 'C1': '=B1+A1', 'D1': '=1/0', 'E1': '=D1
                'C2': '=SUM(A1:A2)', 'D2': '=A2&"|"', 'AB1': 4, 'E2': '=AB1*3',
                # areas that reach beyond the used range of their sheet: an override out there belongs to them as well
                'G1': '=SUM(A1:A6)+10*COUNT(A4:B7)', 'G2': "=SUM('T 2'!A1:B6)",
-               'G3': '=MATCH(2,A1:A6,0)', 'G4': '=INDEX(A1:B7,5,1)', 'G5': "=VLOOKUP(2,'T 2'!B1:B6,1,0)",
+               'P1': '=MATCH(2,A1:A6,0)', 'Q1': '=INDEX(A1:B7,5,1)', 'R1': "=VLOOKUP(2,'T 2'!B1:B6,1,0)",
                # pass-through cells (a formula that is one bare reference) with readers behind them
-               'I1': '=A1', 'I2': '=I1+1', 'I3': "='T 2'!A1", 'I4': '=SUM(I1:I3)', 'I5': '=IF(I3>5,"big","small")'}),
+               # (everything stays in rows 1 and 2: the used range of the sheet must end there for the areas above)
+               'K1': '=A1', 'L1': '=K1+1', 'M1': "='T 2'!A1", 'N1': '=SUM(K1:M1)', 'O1': '=IF(M1>5,"big","small")'}),
         ('T 2', {'A1': 7, 'B1': '=S!A1+A1', 'C1': "=S!D1", 'D1': '=SUM(A2:B5)'})]
 # target name -> (title, col, row)
 TARGETS = {'const': ('S', 'A', 1), 'formula': ('S', 'B', 1), 'failing': ('S', 'D', 1), 'blank': ('S', 'A', 2),
            'beyond_ref': ('S', 'H', 9), 'wide': ('S', 'AB', 1), 'beyond': ('S', 'J', 12), 'sheet2': ('T 2', 'A', 1),
-           'below_in_area': ('S', 'A', 5), 'below_in_area2': ('T 2', 'B', 4), 'forward': ('S', 'I', 1), 'forward_x': ('S', 'I', 3)}
+           'below_in_area': ('S', 'A', 5), 'below_in_area2': ('T 2', 'B', 4), 'forward': ('S', 'K', 1), 'forward_x': ('S', 'M', 1)}
 TITLE_IDX = {'S': 0, 'T 2': 1}
 QUERY = [('S', c, r) for c, r in [('A', 1), ('B', 1), ('C', 1), ('D', 1), ('E', 1), ('F', 1), ('A', 2), ('B', 2), ('C', 2),
-                                  ('D', 2), ('H', 9), ('J', 12), ('AB', 1), ('E', 2), ('G', 1), ('G', 2), ('G', 3), ('G', 4), ('G', 5), ('A', 5), ('I', 1), ('I', 2), ('I', 3),
-                                  ('I', 4), ('I', 5)]] + \
+                                  ('D', 2), ('H', 9), ('J', 12), ('AB', 1), ('E', 2), ('G', 1), ('G', 2), ('P', 1), ('Q', 1), ('R', 1), ('A', 5), ('K', 1), ('L', 1), ('M', 1),
+                                  ('N', 1), ('O', 1)]] + \
     [('T 2', 'A', 1), ('T 2', 'B', 1), ('T 2', 'C', 1), ('T 2', 'D', 1), ('T 2', 'B', 4)]
 
 
